@@ -343,7 +343,8 @@ class Run(RunBase):
             return {"op": "mul", "obj": k, "g": rng.randrange(len(self.glist)), "side": rng.choice("lr"),
                     "to": rng.randrange(MAXOBJ)}
         if x < 0.78:
-            return {"op": "copy", "obj": k, "to": rng.randrange(MAXOBJ)}
+            return {"op": "copy", "obj": k, "to": rng.randrange(MAXOBJ),
+                    "how": rng.choice(("copy", "copy", "copy", "deepcopy", "pickle"))}
         if x < 0.93:
             dst = rng.choice(["self", "fresh", "fresh", rng.randrange(nobj)])
             return {"op": "poscar", "src": k, "dst": dst, "empty": rng.random() < 0.7,
@@ -523,7 +524,18 @@ class Run(RunBase):
 
     def op_copy(self, op):
         k = op["obj"] % len(self.objs)
-        new = self.objs[k].copy()
+        how = op.get("how", "copy")
+        if how == "copy":
+            new = self.objs[k].copy()
+        else:
+            # the other ways a Python user duplicates (or checkpoints and restores) an object
+            import pickle
+            try:
+                new = copy.deepcopy(self.objs[k]) if how == "deepcopy" else pickle.loads(pickle.dumps(self.objs[k]))
+            except Exception:
+                self.probes["duplicate-unsupported-" + how] += 1     # nothing is claimed about it
+                return "unsupported"
+            self.probes["duplicated-by-" + how] += 1
         if not (new == self.objs[k]):
             self.fail("alias", "copy() != original")
         self.place((new, self.models[k].copy()), op["to"])
